@@ -23,7 +23,7 @@ def main():
         for X in sorted(meta['changes']):
             ch = meta['changes'][X]
             diff = os.path.join(out, X + '.diff'); demo = os.path.join(out, X + '_demo.cpp')
-            orig_wt = re.search(r'/tmp/mut/wt_\w+', ch['build']).group(0)
+            orig_wt = re.search(r'/tmp/mut/wt2?_\w+', ch['build']).group(0)
             build = ch['build'].replace(orig_wt, wt).replace(out + '/' + X + '_demo ', '/tmp/seed_demo_%s ' % prop)
             build = re.sub(r'-o \S+', '-o /tmp/seed_demo_%s' % prop, build.split('  (')[0])
             r = dict(summary=ch['summary'], needs=ch['needs'])
